@@ -198,7 +198,9 @@ theorem epBody_none (env : ModelEnv) (atts : List (Key × Ser.AttackerEntry)) (h
   rw [epBody_eq env atts hnd a ha hnd2 s.tfresh p hp h]
   unfold epRes at hv
   cases hi : p.1.toInt? with
-  | none => rw [jInt_keyJ_none _ hi]; exact ⟨_, rfl, Or.inl rfl⟩
+  | none => rcases jInt_keyJ_none' _ hi with hj | hj <;> rw [hj]
+            · exact ⟨_, rfl, Or.inl rfl⟩
+            · exact ⟨_, rfl, Or.inr rfl⟩
   | some i =>
     rw [hi] at hv
     rw [jInt_keyJ_some _ _ hi, ok_bind, hm.getAsset env i]
@@ -277,11 +279,12 @@ theorem attackerBody_eq (env : ModelEnv) (atts : List (Key × Ser.AttackerEntry)
 theorem attackerBody_ep_not_int (env : ModelEnv) (atts : List (Key × Ser.AttackerEntry)) (hnd : (atts.map (·.1)).Nodup)
     (a : Key × Ser.AttackerEntry) (ha : a ∈ atts) (hnd2 : (a.2.entry.map (·.1)).Nodup)
     (p : Key × List String) (ps : List (Key × List String)) (hentry : a.2.entry = p :: ps) (hk : p.1.toInt? = none)
+    (hpl : keyPlain p.1 = true)
     (s : H) : attackerBody env (infoOf atts) (keyJ a.1) s = .error (.py .valueError) := by
   rw [attackerBody_eq env atts hnd a ha s]
   have hp : p ∈ a.2.entry := by rw [hentry]; exact List.mem_cons_self
   have h1 : epBody env (infoOf atts) (keyJ a.1) s.tfresh (keyJ p.1) (startH s a.2.name) = .error (.py .valueError) := by
-    rw [epBody_eq env atts hnd a ha hnd2 s.tfresh p hp, jInt_keyJ_none _ hk]; rfl
+    rw [epBody_eq env atts hnd a ha hnd2 s.tfresh p hp, jInt_keyJ_none _ hk hpl]; rfl
   rw [hentry, List.map_cons, forIn_cons_err _ _ _ _ _ h1]
   rfl
 
@@ -342,7 +345,7 @@ theorem attacker_sim (env : ModelEnv) (atts : List (Key × Ser.AttackerEntry)) (
     subst hb
     have hi : a.1.toInt? = some i := by
       cases hk : a.1.toInt? with
-      | none => rw [jInt_keyJ_none _ hk] at hint; cases hint
+      | none => rcases jInt_keyJ_none' _ hk with hj | hj <;> rw [hj] at hint <;> cases hint
       | some j =>
         rw [jInt_keyJ_some _ _ hk] at hint
         injection hint with hint
@@ -379,9 +382,8 @@ theorem attacker_sim (env : ModelEnv) (atts : List (Key × Ser.AttackerEntry)) (
     | ok h' =>
       cases hk : a.1.toInt? with
       | none =>
-        rw [hfor, ok_bind, jInt_keyJ_none _ hk] at hb
-        cases hb
-        exact ⟨.valueError, rfl, by decide⟩
+        rcases jInt_keyJ_none' _ hk with hj | hj <;> rw [hfor, ok_bind, hj] at hb <;> cases hb <;>
+          exact ⟨.valueError, rfl, by decide⟩
       | some i =>
         rw [hfor, ok_bind, jInt_keyJ_some _ _ hk, ok_bind] at hb
         cases hb
